@@ -9,7 +9,8 @@ Report(v) == IF v = {} THEN TRUE ELSE PrintT(<<"REJECT", l, l, v>>)
 Viol(ev) ==
   IF ev.e = "Crash" THEN {"crash"} ELSE        \* (a crash caught by the signal handler carries no graph)
   IF ev.e = "FvsFam" THEN FvsFamViol(ev) ELSE
-  IF ev.e = "ForestFam" THEN ForestFamViol(ev) ELSE  \* (a family described by parameters instead of an edge list)
+  IF ev.e = "ForestFam" THEN ForestFamViol(ev) ELSE
+  IF ev.e = "SptFam" THEN SptFamViol(ev) ELSE  \* (a family described by parameters instead of an edge list)
   LET g == GraphOf(ev) IN
   IF ~InDomain(g) THEN {"bad-input"}
   ELSE CASE ev.e = "Forest" -> ForestViol(g, ev) \cup (IF ev.copy_same THEN {} ELSE {"copy-differs"})
